@@ -461,7 +461,8 @@ func (tf *transformer) transformAsm(args []string) ([]string, error) {
 						return nil, err
 					}
 					if flagDebugDir != "" {
-						debugArtifacts.GarbledFiles[basename] = content
+						// content points into includeBuf, which is reused for the next header.
+						debugArtifacts.GarbledFiles[basename] = bytes.Clone(content)
 					}
 					newHeaderPaths[includePath] = newPath
 				}
@@ -499,7 +500,8 @@ func (tf *transformer) transformAsm(args []string) ([]string, error) {
 			newPaths = append(newPaths, path)
 		}
 		if flagDebugDir != "" {
-			debugArtifacts.GarbledFiles[basename] = content
+			// content points into buf, which is reused for the next assembly file.
+			debugArtifacts.GarbledFiles[basename] = bytes.Clone(content)
 		}
 	}
 	if err := saveDebugArtifactsForPkg(tf.curPkg, debugCacheKindAsm, debugArtifacts); err != nil {
